@@ -1,2 +1,136 @@
-(* C16 -- placeholder while the proofs are being written *)
-From LK Require Import Model.C16_itemlist.
+(* C16 -- Item lists keep each item's identifier, number and field values together.
+   Property theorems only; each is closed by `exact <lemma>` and followed by Print Assumptions.
+   The model (Model/C16_itemlist.v) is hand-written and tied to lenskit/data/items.py by the
+   operation-sequence correspondence that ./check C16 evaluates inside Coq on every run.
+
+   Property text -> theorem
+   * "For every item list built from identifiers, numbers, or both with a vocabulary, identifiers
+     and numbers always correspond through that vocabulary - and through any alternate vocabulary
+     requested, with a negative marker or an error for unknown items as selected - every field has
+     exactly one value per item, and ranks are 1..n in list order exactly when the list is ordered"
+     ... for "all finite sequences of subsetting, copy-with-override, format-conversion and
+     alternate-vocabulary operations"                          -> coherent_preserved
+       (`coherent` is the sentence above, clause by clause; `run` interprets any sequence of
+        constructions, copies with overrides/removals, subsettings, lazy reads, alternate-vocabulary
+        reads, clones and round trips through data frames and Arrow tables over a pool of lists)
+   * "Subsetting by mask, index array or slice ... keep each item's identifier, number and field
+     values together"                                          -> rows_stay_together
+   * "copying with fields replaced or removed"                 -> copy_keeps_rows
+   * "and never change the source list"                        -> source_unchanged
+   * "fields of the wrong length or dimensionality are rejected at construction"
+                                                               -> bad_shapes_rejected
+   * conversion among NumPy, PyTorch and Arrow views of one array is the identity on the abstract
+     values of the model; that the four real formats agree entry-wise is checked on every list of
+     every correspondence case (harness), not proved.
+
+   Hypotheses (all discharged for the concrete example at the end):
+   env_ok   every vocabulary has distinct terms (Vocabulary.__init__ raises otherwise);
+   ops_ok   what a caller owes at each construction: a 1-D array of shape [n] has n entries;
+            identifiers and numbers given together agree with the vocabulary in force; a vocabulary
+            attached later to a list built from both without one agrees with them; a supplied rank
+            column is 1..n. *)
+From Coq Require Import ZArith List Bool.
+From LK Require Import Model.C16_itemlist Proofs.C16_base Proofs.C16_wf Proofs.C16_ops Proofs.C16_rows Proofs.C16_copy.
+Import ListNotations.
+Open Scope Z_scope.
+
+Theorem coherent_preserved : forall env ops,
+  env_ok env -> ops_ok env [] ops -> Forall (coherent env) (run env [] ops).
+Proof. exact coherent_preserved_l. Qed.
+Print Assumptions coherent_preserved.
+
+(* `coherent env l`, unfolded, is literally:
+     get_ids env l = Ok i                      -> length i = len l
+     get_nums env l m = Ok n                   -> length n = len l
+     vocab l = Some v, ids i, numbers n        -> n = map (position in vocabulary v, or -1) i
+     get_nums env l MNegative = Ok n           -> get_nums env l MError = if some n<0 then Err EKey else Ok n
+     get_ids env l = Ok i                      -> alt_nums env l v2 m = apply_missing m (vnums (venv env v2) i)
+     get_field l f = Some vs                   -> length vs = len l
+     get_ranks l = if ordered l then Some [1..len l] else None *)
+Theorem coherent_means : forall env l, coherent env l ->
+  (forall i, get_ids env l = Ok i -> length i = len l) /\
+  (forall v i n, vocab l = Some v -> get_ids env l = Ok i -> get_nums env l MNegative = Ok n -> n = map (vnum (venv env v)) i) /\
+  (forall n, get_nums env l MNegative = Ok n -> get_nums env l MError = if has_neg n then Err EKey else Ok n) /\
+  (forall v2 i m, get_ids env l = Ok i -> alt_nums env l v2 m = apply_missing m (map (vnum (venv env v2)) i)) /\
+  (forall f vs, get_field l f = Some vs -> length vs = len l) /\
+  get_ranks l = if ordered l then Some (seq1 (len l)) else None.
+Proof. exact coherent_means_l. Qed.
+Print Assumptions coherent_means.
+
+Theorem rows_stay_together : forall env l s l',
+  env_ok env -> wf env l -> subset env l s = Ok l' ->
+  exists sigma, sel_idx (len l) s = Ok sigma /\ Forall (fun k => (k < len l)%nat) sigma /\
+    len l' = length sigma /\ ordered l' = ordered l /\ vocab l' = vocab l /\
+    (forall i, get_ids env l = Ok i -> get_ids env l' = Ok (pick 0 sigma i)) /\
+    (forall n, get_nums env l MNegative = Ok n -> get_nums env l' MNegative = Ok (pick 0 sigma n)) /\
+    (forall f, f <> F_RANK -> get_field l' f = option_map (pick VNaN sigma) (get_field l f)).
+Proof. exact rows_stay_together_l. Qed.
+Print Assumptions rows_stay_together.
+
+(* the positions a selector denotes: a mask selects exactly its true positions in increasing order,
+   an index array its entries (negative ones counted from the end), a full slice everything *)
+Theorem selectors_mean : forall n,
+  (forall m, length m = n -> exists sigma, sel_idx n (SMask m) = Ok sigma /\
+     forall k, In k sigma <-> nth k m false = true) /\
+  (forall ix sigma, sel_idx n (SIdx ix) = Ok sigma ->
+     length sigma = length ix /\ forall j, (j < length ix)%nat ->
+       Z.of_nat (nth j sigma O) = let i := nth j ix 0 in if i <? 0 then i + Z.of_nat n else i) /\
+  sel_idx n (SSlice None None None) = Ok (seq 0 n).
+Proof. exact selectors_mean_l. Qed.
+Print Assumptions selectors_mean.
+
+Theorem copy_keeps_rows : forall env s a l,
+  env_ok env -> wf env s -> args_ok env (Some s) a ->
+  c_ids a = None -> c_nums a = None -> construct env (Some s) a = Ok l ->
+  len l = len s /\
+  (forall i, get_ids env s = Ok i -> get_ids env l = Ok i) /\
+  ((c_vocab a = None \/ c_vocab a = vocab s) -> forall n, raw_nums env s = Ok n -> raw_nums env l = Ok n) /\
+  (forall f, f <> F_SCORE -> f <> F_RANK ->
+     get_field l f = match lookup f (c_fields a) with
+                     | Some FFalse => None                                          (* removed *)
+                     | Some (FArr x) => if array_is_null x then None else Some (map to_np (a_data x))   (* replaced / added *)
+                     | None => get_field s f                                         (* kept *)
+                     end) /\
+  (c_scores a = SNone -> lookup F_SCORE (c_fields a) = None -> get_field l F_SCORE = get_field s F_SCORE) /\
+  (c_scores a = SFalse -> get_field l F_SCORE = None).
+Proof. exact copy_keeps_rows_l. Qed.
+Print Assumptions copy_keeps_rows.
+
+Theorem source_unchanged : forall env ls o k l,
+  env_ok env -> Forall (wf env) ls -> nth_error ls k = Some l ->
+  exists l', nth_error (fst (step env ls o)) k = Some l' /\ observe env l' = observe env l.
+Proof. exact source_unchanged_l. Qed.
+Print Assumptions source_unchanged.
+
+Theorem bad_shapes_rejected : forall env src a l,
+  construct env src a = Ok l ->
+  (forall f x, In (f, FArr x) (eff_fields src a) -> f <> F_SCORE -> f <> F_RANK -> array_is_null x = false ->
+               a_shape x = [len l]) /\
+  (forall x, c_scores a = SArr x -> a_shape x = [len l]) /\
+  (forall x, c_scores a = SNone -> lookup F_SCORE (eff_fields src a) = Some (FArr x) -> a_shape x = [len l]) /\
+  (forall x, lookup F_RANK (c_fields a) = Some (FArr x) -> c_ordered a <> Some false -> a_shape x = [len l]) /\
+  (forall z, c_ids a = Some z -> z_badtype z = false /\ (z_shape z = [len l] \/ (len l = 0%nat /\ exists r, z_shape z = 0%nat :: r))) /\
+  (forall z, c_nums a = Some z -> z_shape z = [len l] \/ (len l = 0%nat /\ exists r, z_shape z = 0%nat :: r)).
+Proof. exact bad_shapes_rejected_l. Qed.
+Print Assumptions bad_shapes_rejected.
+
+(* every list reachable by the interpreter satisfies the invariant the other theorems assume *)
+Theorem reachable_wf : forall env ops, env_ok env -> ops_ok env [] ops -> Forall (wf env) (run env [] ops).
+Proof. exact reachable_wf_l. Qed.
+Print Assumptions reachable_wf.
+
+(* non-vacuity: two vocabularies, a list built from identifiers with an unknown item, its numbers
+   read lazily, a copy that replaces the vocabulary (numbers are recomputed), a reversed slice, a
+   data-frame round trip; the hypotheses hold and the run produces five lists *)
+Example c16_nonvacuous :
+  let env := [[10; 11; 12; 13]; [13; 12; 99; 10]] in
+  let f1 := {| a_kind := KNumpy; a_shape := [3%nat]; a_data := [VZ 4; VZ 8; VNaN] |} in
+  let a0 := {| c_ids := Some (znp1 [11; 99; 13]); c_nums := None; c_vocab := Some 0%nat; c_ordered := Some true;
+               c_scores := SArr f1; c_fields := [(2%nat, FArr f1)] |} in
+  let a1 := {| c_ids := None; c_nums := None; c_vocab := Some 1%nat; c_ordered := None; c_scores := SFalse; c_fields := [] |} in
+  let ops := [ONew a0; ONums 0 MNegative; OCopy 0 a1; OSub 1 (SSlice None None (Some (-1))); ODf 2 true false; OClone 0] in
+  env_ok env /\ ops_ok env [] ops /\
+  map (observe env) (run env [] ops) <> [] /\ length (run env [] ops) = 5%nat /\
+  map (fun l => get_nums env l MNegative) (run env [] ops) =
+    [Ok [1; -1; 3]; Ok [-1; 2; 0]; Ok [0; 2; -1]; Ok [0; 2; -1]; Ok [1; -1; 3]].
+Proof. exact c16_nonvacuous_l. Qed.
